@@ -79,44 +79,49 @@ SetValues(S, p, k, D) ==
 \* gets values = np.delete(values, indices).  As built a child without values makes np.delete(None, ...)
 \* raise in the middle of the loop (deviation ValuelessChildBreaksRemoval): children after it keep
 \* their old arrays.  Specified: children without values are skipped.
-TrimChildren(data, assoc, R, D) ==
+\* clear = the clear_cache argument (:547-548 clear_array_attributes): the child forgets its array and
+\* reads it back from the file on the next access - which as built fails for a zero-length array
+\* (deviation EmptyValuesUnreadable, see Reopen).
+TrimChildren(data, assoc, R, D, clear) ==
     LET ch == IF "ValuelessChildBreaksRemoval" \in D
               THEN {p \in DOMAIN data : data[p].assoc = assoc /\ ~data[p].has} ELSE {}
         stop == IF ch = {} THEN Len(data) + 1 ELSE MinOf(ch)
     IN [err |-> ch # {},
         data |-> [p \in DOMAIN data |->
                     IF p < stop /\ data[p].assoc = assoc /\ data[p].has
-                    THEN [data[p] EXCEPT !.vals = DeleteIdx(@, R)] ELSE data[p]]]
+                    THEN [data[p] EXCEPT !.vals = DeleteIdx(@, R),
+                                         !.rd = ~(clear /\ "EmptyValuesUnreadable" \in D /\ DeleteIdx(data[p].vals, R) = <<>>)]
+                    ELSE data[p]]]
 
 \* points.py:104-133 Points.remove_vertices
-RemoveVerticesPoints(S, ix, D) ==
+RemoveVerticesPoints(S, ix, clear, D) ==
     LET n == Len(S.verts)
         R == IxSet(ix) IN
     IF \E i \in R : i > n - 1 THEN Res("refused", S)                      \* points.py:124-128
     ELSE LET S1 == [S EXCEPT !.verts = DeleteIdx(@, R)]                     \* points.py:130-132
-             t == TrimChildren(S.data, "VERTEX", R, D)                      \* points.py:133
+             t == TrimChildren(S.data, "VERTEX", R, D, clear)               \* points.py:133
          IN Res(IF t.err THEN "error" ELSE "ok", [S1 EXCEPT !.data = t.data])
 
 \* cell_object.py:79-107 CellObject.remove_cells, R = set of 0-based cell indices (already range-checked)
-DropCells(S, R, D) ==
+DropCells(S, R, clear, D) ==
     LET S1 == [S EXCEPT !.cells = DeleteIdx(@, R), !.cids = DeleteIdx(@, R)] \* cell_object.py:103-105
-        t == TrimChildren(S.data, "CELL", R, D)                              \* cell_object.py:107
+        t == TrimChildren(S.data, "CELL", R, D, clear)                       \* cell_object.py:107
     IN Res(IF t.err THEN "error" ELSE "ok", [S1 EXCEPT !.data = t.data])
 
-RemoveCells(S, ix, D) ==
+RemoveCells(S, ix, clear, D) ==
     LET R == IxSet(ix) IN
     IF \E i \in R : i > Len(S.cells) - 1 THEN Res("refused", S)             \* cell_object.py:97-101
-    ELSE DropCells(S, R, D)
+    ELSE DropCells(S, R, clear, D)
 
 \* cell_object.py:109-146 CellObject.remove_vertices
-RemoveVerticesCells(S, ix, D) ==
+RemoveVerticesCells(S, ix, clear, D) ==
     LET n == Len(S.verts)
         R == IxSet(ix) IN
     IF \E i \in R : i > n - 1 THEN Res("refused", S)                        \* cell_object.py:127-131
     ELSE
     LET kept == (0..(n-1)) \ R                                               \* vert_index, :133-134
         S1 == [S EXCEPT !.verts = DeleteIdx(@, R)]                           \* :135-138
-        t == TrimChildren(S.data, "VERTEX", R, D)                            \* :139
+        t == TrimChildren(S.data, "VERTEX", R, D, clear)                     \* :139
         S2 == [S1 EXCEPT !.data = t.data]
         \* :141-142 new_index = ones ; new_index[vert_index] = arange(n_kept)
         newIndex == [i \in 0..(n-1) |-> IF i \in R THEN 1 ELSE Cardinality({j \in kept : j < i})]
@@ -127,12 +132,13 @@ RemoveVerticesCells(S, ix, D) ==
         \* as built: remove_cells(np.where(...)) gets an empty index array, np.max([]) raises
         \* (cell_object.py:97-99) and line :144 (renumbering) is never reached
         THEN Res("error", S2)
-        ELSE LET r == DropCells(S2, touched, D) IN
+        ELSE LET r == DropCells(S2, touched, FALSE, D) IN                    \* :143 (clear_cache is not passed on)
              IF r.out # "ok" THEN r                                          \* cells dropped, not renumbered
              ELSE Res("ok", [r.st EXCEPT !.cells =                          \* :144 cells = new_index[cells]
                                 [c \in DOMAIN r.st.cells |-> [a \in 1..Arity |-> newIndex[r.st.cells[c][a]]]]])
 
-RemoveVertices(S, ix, D) == IF Arity = 0 THEN RemoveVerticesPoints(S, ix, D) ELSE RemoveVerticesCells(S, ix, D)
+RemoveVertices(S, ix, clear, D) ==
+    IF Arity = 0 THEN RemoveVerticesPoints(S, ix, clear, D) ELSE RemoveVerticesCells(S, ix, clear, D)
 
 \* points.py:135-163 / cell_object.py:148-231 copy(mask=...) and data.py:66-117 Data.copy.
 \* The copy becomes the object under observation (the harness also checks the source is untouched).
@@ -155,8 +161,7 @@ MaskedCopy(S, mask, D) ==
 \* cell_object.py:148-231 copy(cell_mask=...) without a vertex mask: every vertex is kept, the cells and
 \* the CELL data are sub-sampled (:181-184, :206-211), VERTEX data are copied whole (child_mask = mask = None)
 CellMaskedCopy(S, cmask, D) ==
-    IF Len(cmask) # Len(S.cells) THEN Res("refused", S)      \* numpy refuses a boolean index of another length
-    ELSE
+    \* (cell_mask is not validated by geoh5py; masks of another length are left to numpy and not offered here)
     LET CR == {c \in 0..(Len(S.cells)-1) : ~cmask[c+1]} IN
     Res("ok", [S EXCEPT !.cells = DeleteIdx(@, CR), !.cids = DeleteIdx(@, CR),
                         !.data = [p \in DOMAIN S.data |->
@@ -172,7 +177,9 @@ Reopen(S, D) ==
               ELSE S)
 
 \* ---------------------------------------------------------------- the operations offered in a state
-Act(nm) == [act |-> nm, name |-> 0, assoc |-> "", k |-> 0, ix |-> <<>>, mask |-> <<>>]
+Act(nm) == [act |-> nm, name |-> 0, assoc |-> "", k |-> 0, ix |-> <<>>, mask |-> <<>>, clear |-> FALSE]
+\* clear_cache = TRUE is offered with the single-index removals only (keeps the graph small)
+Clears(ix) == IF Len(ix) = 1 THEN BOOLEAN ELSE {FALSE}
 Lens(n) == {n, n + 1} \cup (IF n > 0 THEN {n - 1} ELSE {})
 IxSeqs(n) == UNION {[1..l -> 0..(n-1)] : l \in 1..MaxIx}           \* repeated, unsorted, first/last/all
              \cup {<<n>>} \cup (IF n > 0 THEN {<<0, n>>} ELSE {})  \* out of range: refused
@@ -187,17 +194,18 @@ Acts(S) ==
                         k \in Lens(N(S, a)) \cup (IF Valueless THEN {0 - 1} ELSE {})} : a \in Assocs})
   \cup UNION {{[Act("SetValues") EXCEPT !.name = S.data[p].name, !.assoc = S.data[p].assoc, !.k = k] :
                         k \in Lens(N(S, S.data[p].assoc))} : p \in {q \in DOMAIN S.data : S.data[q].name # 0}}
-  \cup {[Act("RemoveVertices") EXCEPT !.ix = ix] : ix \in IxSeqs(Len(S.verts))}
-  \cup (IF Arity = 0 THEN {} ELSE {[Act("RemoveCells") EXCEPT !.ix = ix] : ix \in IxSeqs(Len(S.cells))})
+  \cup UNION {{[Act("RemoveVertices") EXCEPT !.ix = ix, !.clear = c] : c \in Clears(ix)} : ix \in IxSeqs(Len(S.verts))}
+  \cup (IF Arity = 0 THEN {}
+        ELSE UNION {{[Act("RemoveCells") EXCEPT !.ix = ix, !.clear = c] : c \in Clears(ix)} : ix \in IxSeqs(Len(S.cells))})
   \cup {[Act("MaskedCopy") EXCEPT !.mask = m] : m \in Masks(Len(S.verts))}
-  \cup (IF Arity = 0 \/ ~CellMask THEN {} ELSE {[Act("CellMaskedCopy") EXCEPT !.mask = m] : m \in Masks(Len(S.cells))})
+  \cup (IF Arity = 0 \/ ~CellMask THEN {} ELSE {[Act("CellMaskedCopy") EXCEPT !.mask = m] : m \in [1..Len(S.cells) -> BOOLEAN]})
   \cup (IF cached THEN {Act("Reopen")} ELSE {})
 
 Step(S, a, D) ==
     CASE a.act = "AddData"        -> AddData(S, a.name, a.assoc, a.k, D)
       [] a.act = "SetValues"      -> SetValues(S, PosOf(S, a.name), a.k, D)
-      [] a.act = "RemoveVertices" -> RemoveVertices(S, a.ix, D)
-      [] a.act = "RemoveCells"    -> RemoveCells(S, a.ix, D)
+      [] a.act = "RemoveVertices" -> RemoveVertices(S, a.ix, a.clear, D)
+      [] a.act = "RemoveCells"    -> RemoveCells(S, a.ix, a.clear, D)
       [] a.act = "MaskedCopy"     -> MaskedCopy(S, a.mask, D)
       [] a.act = "CellMaskedCopy" -> CellMaskedCopy(S, a.mask, D)
       [] a.act = "Reopen"         -> Reopen(S, D)
@@ -219,18 +227,18 @@ DevView(st) ==
         THEN [st.data[p] EXCEPT !.rd = FALSE] ELSE st.data[p]]]
 Devs(S, a) ==
     LET ideal == Obs(Step(S, a, {}))
-        single == {[name |-> d, out |-> Step(S, a, {d}).out, st |-> DevView(Step(S, a, {d}).st)] :
-                      d \in AsBuilt \ {"ValuelessChildBreaksRemoval"}}
-        perm == {[name |-> "ValuelessChildBreaksRemoval",
-                  out |-> Step(PermData(S, f), a, {"ValuelessChildBreaksRemoval"}).out,
-                  st |-> DevView(Step(PermData(S, f), a, {"ValuelessChildBreaksRemoval"}).st),
-                  same |-> Obs(Step(PermData(S, f), a, {"ValuelessChildBreaksRemoval"})) = Obs(Step(PermData(S, f), a, {}))] :
-                      f \in Permutations(DOMAIN S.data)}
-        all == [out |-> Step(S, a, AsBuilt).out, st |-> DevView(Step(S, a, AsBuilt).st)]
-        named == {x \in single : [out |-> x.out, st |-> x.st] # ideal}
-                 \cup {[name |-> x.name, out |-> x.out, st |-> x.st] : x \in {y \in perm : ~y.same}}
-    IN named \cup (IF all = ideal \/ \E x \in named : [out |-> x.out, st |-> x.st] = all THEN {}
-                   ELSE {[name |-> "AsBuiltCombination", out |-> all.out, st |-> all.st]})
+        VB == "ValuelessChildBreaksRemoval"
+        \* one deviation at a time, then pairs (a pair is reported only if no single deviation explains it),
+        \* then all of them; name = the set of deviations in force
+        subsets == {P \in SUBSET AsBuilt : Cardinality(P) \in {1, 2, Cardinality(AsBuilt)}}
+        pred == UNION {{[name |-> P, out |-> Step(PermData(S, f), a, P).out,
+                         st |-> DevView(Step(PermData(S, f), a, P).st),
+                         same |-> Obs(Step(PermData(S, f), a, P)) = Obs(Step(PermData(S, f), a, {}))] :
+                            f \in IF VB \in P THEN Permutations(DOMAIN S.data) ELSE {[p \in DOMAIN S.data |-> p]}} :
+                       P \in subsets}
+        diff == {x \in pred : ~x.same}
+        explained(x) == \E y \in diff : y.name # x.name /\ y.name \subseteq x.name /\ y.out = x.out /\ y.st = x.st
+    IN {[name |-> x.name, out |-> x.out, st |-> x.st] : x \in {y \in diff : ~explained(y)}}
 
 \* ---------------------------------------------------------------- initial objects
 Tuples(S, n) == [1..n -> S]
@@ -288,7 +296,7 @@ Do(a) ==
     /\ UNCHANGED ccoords
     /\ cached' = (a.act # "Reopen")
     /\ depth' = depth + 1
-    /\ last' = [act |-> a.act, name |-> a.name, assoc |-> a.assoc, k |-> a.k, ix |-> a.ix, mask |-> a.mask,
+    /\ last' = [act |-> a.act, name |-> a.name, assoc |-> a.assoc, k |-> a.k, ix |-> a.ix, mask |-> a.mask, clear |-> a.clear,
                 \* the value tokens handed to add_data / the values setter (before padding)
                 vals |-> IF a.act = "AddData" /\ a.k >= 0 THEN NewVals(a.name, 0, a.k)
                          ELSE IF a.act = "SetValues" THEN NewVals(a.name, 1, a.k) ELSE <<>>,
